@@ -10,9 +10,9 @@ Floats are the 16 hex digits of their IEEE bits (`nan` for NaN), ints decimal.  
          body_ipos 3nb .. body_iquat 4nb .. body_sameframe nb .. mocap_pos 3nm .. mocap_quat 4nm ..
          jnt_type nj .. jnt_qposadr nj .. jnt_pos 3nj .. jnt_axis 3nj .. qpos0 nq .. qpos nq ..
          geom_bodyid ng .. geom_pos .. geom_quat .. geom_sameframe .. site_bodyid ns .. site_pos .. site_quat ..
-         site_sameframe .. cam_bodyid nc .. cam_pos .. cam_quat ..
+         site_sameframe .. cam_bodyid nc .. cam_pos .. cam_quat .. light_bodyid nl .. light_pos .. light_dir ..
       -> xpos 3nb .. xquat 4nb .. xmat 9nb .. xanchor 3nj .. xaxis 3nj .. xipos 3nb .. ximat 9nb .. geom_xpos ..
-         geom_xmat .. site_xpos .. site_xmat .. cam_xpos .. cam_xmat ..          (mj_kinematics + fixed cameras)
+         geom_xmat .. site_xpos .. site_xmat .. cam_xpos .. cam_xmat .. light_xpos .. light_xdir ..   (mj_kinematics + fixed cameras / lights)
   INTEG  jnt_type nj .. qpos nq .. qvel nv .. dt 1 ..                  -> nq floats   (mj_integratePos)
   DIFF   jnt_type nj .. qpos1 nq .. qpos2 nq .. dt 1 ..                -> nv floats   (mj_differentiatePos)
   CHAIN  body_weldid nb .. body_dofnum nb .. body_dofadr nb .. dof_parentid nv .. b1 1 .. b2 1 .. skip 1 ..
@@ -88,7 +88,7 @@ def runFK (g : List (String × List String)) : Option String := do
   let qpos ← lookF g "qpos"
   let nb := parent.size
   let nj := jtype.size
-  if g.length ≠ 28 then none else
+  if g.length ≠ 31 then none else
   if nb = 0 ∨ jntadr.size ≠ nb ∨ jntnum.size ≠ nb ∨ mocapid.size ≠ nb ∨ bpos.size ≠ 3 * nb ∨ bquat.size ≠ 4 * nb ∨
      bipos.size ≠ 3 * nb ∨ biquat.size ≠ 4 * nb ∨ bsame.size ≠ nb ∨ jqadr.size ≠ nj ∨ jpos.size ≠ 3 * nj ∨
      jaxis.size ≠ 3 * nj ∨ qpos0.size ≠ qpos.size then none else
@@ -147,6 +147,23 @@ def runFK (g : List (String × List String)) : Option String := do
   let geo ← attach "geom" true
   let sit ← attach "site" true
   let cam ← attach "cam" false
+  -- fixed-mode lights: position through mj_local2Global (no orientation, sameframe 0), direction rotated by the body
+  -- quaternion, then mju_normalize3
+  let lbid ← lookI g "light_bodyid"
+  let lpos ← lookF g "light_pos"
+  let ldir ← lookF g "light_dir"
+  if lpos.size ≠ 3 * lbid.size ∨ ldir.size ≠ 3 * lbid.size then none else
+  let mut lxp : List Float := []
+  let mut lxd : List Float := []
+  for k in List.range lbid.size do
+    let b ← nat? (← lbid[k]?)
+    let f ← frames[b]?
+    let xib ← xi[b]?
+    let r ← local2Global f xib.1 xib.2 (← g3 lpos k) (1, 0, 0, 0) 0
+    lxp := lxp ++ l3 r.1
+    let dv := rotVecQuat (← g3 ldir k) f.quat
+    let nd := MjProof.Gen.mju_normalize3 dv.1 dv.2.1 dv.2.2          -- mj_camlight normalises every direction at the end
+    lxd := lxd ++ [nd.2.1, nd.2.2.1, nd.2.2.2]
   pure (" ".intercalate [
     showGroup "xpos" (frames.toList.flatMap (fun f => l3 f.pos)),
     showGroup "xquat" (frames.toList.flatMap (fun f => l4 f.quat)),
@@ -157,7 +174,8 @@ def runFK (g : List (String × List String)) : Option String := do
     showGroup "ximat" (xi.toList.flatMap (fun r => l9 r.2)),
     showGroup "geom_xpos" geo.1, showGroup "geom_xmat" geo.2,
     showGroup "site_xpos" sit.1, showGroup "site_xmat" sit.2,
-    showGroup "cam_xpos" cam.1, showGroup "cam_xmat" cam.2])
+    showGroup "cam_xpos" cam.1, showGroup "cam_xmat" cam.2,
+    showGroup "light_xpos" lxp, showGroup "light_xdir" lxd])
 
 def jnq (t : Int) : Option Nat := if t = 0 then some 7 else if t = 1 then some 4 else if t = 2 ∨ t = 3 then some 1 else none
 def jnv (t : Int) : Option Nat := if t = 0 then some 6 else if t = 1 then some 3 else if t = 2 ∨ t = 3 then some 1 else none
